@@ -109,7 +109,7 @@ VARIANTS = {"default": {}, "full-match": dict(client=dict(simulated_full_match=T
             "no-isolation": dict(config=dict(simulated_strategy_isolation=False)), "available-prices": dict(config=dict(simulation_available_prices=True))}
 
 
-def h04b(c, K=2, focus="C04", variants=("default", "full-match", "bpe-off", "no-isolation", "available-prices")):
+def h04b(c, K=2, focus="C04", variants=("default", "full-match", "bpe-off", "no-isolation", "available-prices"), actions=None, book_events=None):
     """K-update histories through the real FlumineSimulation._process_market_books (zero latency) with symbolic books (sizes,
     traded volume, suspension / version change, SP reconciliation, runner removal), a symbolic script of strategy actions and a
     symbolic simulation configuration (full-match mode, best-price execution, strategy isolation, available-prices matching); an
@@ -158,7 +158,7 @@ def h04b(c, K=2, focus="C04", variants=("default", "full-match", "bpe-off", "no-
             k = state["k"]
             if state.get("flush"):
                 return
-            act = c.choose("action%d" % k, ["none", "place-rest", "place-cross", "place-fok", "place-sp", "cancel-part", "cancel-all", "replace", "update"])
+            act = c.choose("action%d" % k, list(actions) if actions else ["none", "place-rest", "place-cross", "place-fok", "place-sp", "cancel-part", "cancel-all", "replace", "update"])
             live = [o for o in market.blotter if o.status == OrderStatus.EXECUTABLE and o.bet_id and o.order_type.ORDER_TYPE.name == "LIMIT"]
             if act.startswith("place"):
                 side = c.choose("side%d" % k, ["BACK", "LAY"])
@@ -213,6 +213,8 @@ def h04b(c, K=2, focus="C04", variants=("default", "full-match", "bpe-off", "no-
                     evs.remove("sp-reconciled")  # reconciled once; every later book carries the starting price and is in-play
                 if variant == "available-prices" and k > 0:
                     evs.append("back-side-moves-through-2.0")  # two levels at / through the price of the resting BACK orders
+                if book_events and k > 0:
+                    evs = [e for e in evs if e in book_events]
                 ev = c.choose("book%d" % k, evs)
                 if ev == "traded":
                     tv = tv + c.cents("traded_delta%d" % k, 1, 200000)
@@ -255,7 +257,8 @@ HARNESSES = [
     Harness("H04b", h04b, quick=dict(K=1), thorough=dict(K=1), pattern="P3 bounded history (auditing strategy)", requires=["audited", "placed", "amended", "second-request-rejected"],
             wall_s=(300, 3000), max_paths=(400000, 6000000), selfcheck=False,
             outside=["more than K+1 updates; one price level per side; order prices on 5 ladder points (sizes, traded volumes: every 2dp value)"]),
-    Harness("H04b-K2", h04b, tiers=("thorough",), thorough=dict(K=2, variants=("default", "full-match")), pattern="P3 bounded history (auditing strategy)",
+    Harness("H04b-K2", h04b, tiers=("thorough",), thorough=dict(K=2, variants=("default",), actions=("none", "place-rest", "place-cross", "cancel-part", "replace"),
+                                                                book_events=("open", "traded", "suspended-new-version", "runner-removed")), pattern="P3 bounded history (auditing strategy)",
             requires=["audited", "placed", "amended"], wall_s=(300, 3000), max_paths=(400000, 8000000), selfcheck=False,
             outside=["more than K+1 updates; one price level per side; order prices on 5 ladder points (sizes, traded volumes: every 2dp value)"]),
     Harness("H04a", h04a, quick=dict(max_frags=1), thorough=dict(max_frags=2), pattern="P2 inductive step",
